@@ -306,6 +306,39 @@ Proof.
   split; [exact Hin|]. split; [apply is_L_true; apply Hp| symmetry; exact E].
 Qed.
 
+(* a LIMIT above the number of stored rows is the same as rows + 1: the capped count used by [page_http] *)
+Lemma insert_h_length r l : length (insert_h r l) = S (length l).
+Proof. induction l as [|a l IH]; [reflexivity|]. cbn. destruct (height r <=? height a); cbn; [reflexivity| rewrite IH; reflexivity]. Qed.
+
+Lemma sort_h_length l : length (sort_h l) = length l.
+Proof. unfold sort_h. induction l as [|a l IH]; [reflexivity|]. cbn. rewrite insert_h_length, IH. reflexivity. Qed.
+
+Lemma filter_length_le' {A} (p : A -> bool) l : (length (filter p l) <= length l)%nat.
+Proof. induction l as [|a l IH]; [cbn; lia|]. cbn. destruct (p a); cbn; lia. Qed.
+
+Lemma merkle_from_height_cap s h b : (length s < b)%nat ->
+  merkle_from_height s h b = merkle_from_height s h (S (length s)).
+Proof.
+  intros Hb. unfold merkle_from_height.
+  set (L := sort_h (filter (fun r => is_L r && (h <? height r)) (rev s))).
+  assert (HL: (length L <= length s)%nat).
+  { unfold L. rewrite sort_h_length. etransitivity; [apply filter_length_le'|]. rewrite rev_length. lia. }
+  rewrite !firstn_all2 by lia. reflexivity.
+Qed.
+
+Lemma page_big_batch hlt s b key : (length s < b)%nat -> page hlt s b key = page hlt s (S (length s)) key.
+Proof.
+  intros Hb. unfold page. destruct (last_eval_height hlt s key) as [h| |]; try reflexivity.
+  rewrite (merkle_from_height_cap s h b Hb). reflexivity.
+Qed.
+
+Theorem page_http_cap hlt s z key : 0 <= z -> page hlt s (cap s z) key = page hlt s (Z.to_nat z) key.
+Proof.
+  intros Hz. unfold cap. destruct (Z.le_gt_cases z (Z.of_nat (S (length s)))) as [Hle|Hgt].
+  - rewrite Z.min_l by lia. reflexivity.
+  - rewrite Z.min_r by lia. rewrite Nat2Z.id. symmetry. apply page_big_batch. lia.
+Qed.
+
 (* ------------------------------------------------------------------------------------------ *)
 (* one page, positionally                                                                     *)
 (* ------------------------------------------------------------------------------------------ *)
